@@ -305,6 +305,7 @@ func runLifeOnce(c lifeCase) harness.Result {
 	serveReturned := false
 	var serveResult error
 	shutdownDone := false
+	var pendingRejected []*client
 	shortFailed := false // an earlier Shutdown ended with its context's error: a later one may report the listener as closed already
 	cancelled := false
 	labels := []string{fmt.Sprintf("callbacks:%d", c.Callbacks)}
@@ -377,6 +378,14 @@ func runLifeOnce(c lifeCase) harness.Result {
 				lo, hi := liveBounds()
 				if int(n) < lo+1 || int(n) > hi+1 {
 					return fail("step %d: accept callback reported connectionCount=%d, the number of live connections (including the new one) is between %d and %d", si, n, lo+1, hi+1)
+				}
+				if ev.rejectIx[ix] && c.AcceptDelayMs > 0 {
+					// the rejecting callback is still running: the steps that follow (in particular the ending) overlap the rejection,
+					// and the closure of the connection is checked at the end of the run
+					cl.rejected = true
+					pendingRejected = append(pendingRejected, cl)
+					labels = append(labels, "rejected-connection", "rejection-overlaps-later-steps")
+					continue
 				}
 				if ev.rejectIx[ix] {
 					cl.rejected = true
@@ -513,6 +522,22 @@ func runLifeOnce(c lifeCase) harness.Result {
 			open++
 		}
 	}
+	checkRejected := func() *harness.Result {
+		for _, cl := range pendingRejected {
+			closed, _ := observeClosed(cl.conn, 3*time.Second)
+			if !closed {
+				closed, _ = observeClosed(cl.conn, 12*time.Second)
+			}
+			if !closed {
+				r := fail("connection %s rejected by the accept callback was not closed (the run ended while the callback was still running)", cl.local)
+				return &r
+			}
+			_ = cl.conn.Close()
+			cl.closedByUs = true
+		}
+		pendingRejected = nil
+		return nil
+	}
 	if cancelled && !shutdownDone {
 		// no further dial: it would wake Accept and mask the bug
 		e, ok := waitErr(serveErr, 3*time.Second, 12*time.Second)
@@ -531,6 +556,9 @@ func runLifeOnce(c lifeCase) harness.Result {
 			return fail("final Shutdown returned %v", err)
 		}
 		shutdownDone = err == nil
+	}
+	if r := checkRejected(); r != nil {
+		return *r
 	}
 	if shutdownDone && !cancelled {
 		// serve returned ErrServerClosed
@@ -713,6 +741,11 @@ func TestEndDuringAccept(t *testing.T) {
 				}
 				c := lifeCase{Callbacks: cb, Seed: uint64(idx), AcceptDelayMs: delay}
 				c.Steps = []step{{Op: "connect", Client: 0}, {Op: "request", Client: 0}, {Op: "connect", Client: 1}, {Op: end}}
+				if !chkLife.Eval(t, c) {
+					return
+				}
+				// the same with the newest connection rejected by the callback: it must be closed although the run is ending
+				c.Reject = []int{1}
 				if !chkLife.Eval(t, c) {
 					return
 				}
